@@ -1604,18 +1604,20 @@ def preprocess_arg(arg: ColExpr, table: Table, *, agg_is_window: bool = True) ->
                 "use in pydiverse.transform"
             )
 
+        if isinstance(expr, ColName):
+            return table[expr.name]
+
+        new = copy.copy(expr)
         if (
             agg_is_window
             and isinstance(expr, ColFn)
             and "partition_by" not in expr.context_kwargs
             and (expr.op.ftype in (Ftype.WINDOW, Ftype.AGGREGATE))
         ):
-            expr.context_kwargs["partition_by"] = [table._cache.cols[uid] for uid in table._cache.partition_by]
-
-        if isinstance(expr, ColName):
-            return table[expr.name]
-
-        new = copy.copy(expr)
+            # the grouping columns are added to the copy: the caller's expression stays untouched
+            new.context_kwargs = expr.context_kwargs | {
+                "partition_by": [table._cache.cols[uid] for uid in table._cache.partition_by]
+            }
         new.map_children(
             functools.partial(
                 _preprocess_expr,
